@@ -22,7 +22,7 @@ m = {
     "setup_cmd": "./setup.sh",
     "hooks": {
         "guard": "verif",
-        "enable": "go build -tags verif (the ./check script always builds the worker binary with -tags verif; C09 adds -race)",
+        "enable": "go build -tags verif (the ./check script always builds the worker binary with -tags verif; C09 and C19 add -race)",
         "baseline_off_cmd": "cd /repo && GOFLAGS=-mod=mod go test -json -vet=off -count=1 -timeout 25m ./...",
         "source_commits": hooks_commits,
         "add_only": True,
